@@ -522,9 +522,9 @@ fn run(opts: &Opts, acc: &mut Acc) {
         }
     }
     let n = match (opts.tier, opts.is_dbg()) {
-        (crate::engine::Tier::Quick, _) => 4_000,
-        (_, false) => 150_000,
-        (_, true) => 15_000,
+        (crate::engine::Tier::Quick, _) => 60_000,
+        (_, false) => 600_000,
+        (_, true) => 60_000,
     };
     random_genomes(acc, opts, "histories", n, 600, |gn, a| {
         let mut g = G::new(gn);
